@@ -28,7 +28,7 @@ pub fn draw_cfg(seed: u64) -> Config {
         },
         realloc_move: r.chance(1, 2),
         poison_free: r.chance(3, 4),
-        fail_at: 0,
+        fail_at: 0, fail_persist: false,
         alloc_seed: r.next_u64() >> 1,
     }
 }
@@ -114,7 +114,7 @@ fn gen_c16(r: &mut Rng) -> Vec<Op> {
             let dst = next_slot;
             next_slot += 1;
             live.push(dst);
-            ops.push(Op::new(OpKind::CloneParsed, vec![dst, r.below(4), r.scalar(32, 3), r.below(4)], vec![r.bytes(len)]));
+            ops.push(Op::new(OpKind::CloneParsed, vec![dst, r.below(4), r.scalar(32, 3) | r.below(2), r.below(4)], vec![r.bytes(len)]));
         } else if x < w_new {
             let kind = *r.pick(&kinds);
             let violate = r.below(64) < precondition_rate;
@@ -125,7 +125,10 @@ fn gen_c16(r: &mut Rng) -> Vec<Op> {
                 8..=10 => 2,
                 11..=13 => r.range(3, 6) as usize,
                 14 => r.range(7, 12) as usize,
-                _ => r.range(13, 40) as usize,
+                _ => match r.below(8) {
+                    0 => *r.pick(&[63usize, 64, 65, 127, 128, 129, 255, 256, 257]),
+                    _ => r.range(13, 40) as usize,
+                },
             };
             let slices = partition(r, &content, k);
             let dst = next_slot;
@@ -133,7 +136,15 @@ fn gen_c16(r: &mut Rng) -> Vec<Op> {
             if !violate {
                 live.push(dst);
             }
-            ops.push(Op::new(OpKind::NewBoxed, vec![dst, kind as u64, r.scalar(32, 1), r.below(4), r.scalar(32, 2)], slices));
+            // how the caller's slices lie in memory: separate buffers, pieces of
+            // one buffer (adjacent), overlapping windows, the same slice repeated
+            let alias = match r.below(8) {
+                0 => 1,
+                1 => 2,
+                2 => 3,
+                _ => 0,
+            };
+            ops.push(Op::new(OpKind::NewBoxed, vec![dst, kind as u64, r.scalar(32, 1), r.below(4), r.scalar(32, 2), alias], slices));
         } else if x < w_new + w_clone {
             let src = *r.pick(&live);
             let dst = next_slot;
@@ -188,15 +199,28 @@ fn gen_c07(r: &mut Rng) -> Vec<Op> {
 }
 
 fn gen_c06(r: &mut Rng) -> Vec<Op> {
-    let knobs = GenKnobs { max_len: max_len(r), precondition_rate: if r.chance(1, 5) { 2 } else { 0 } };
+    let mut knobs = GenKnobs { max_len: max_len(r), precondition_rate: if r.chance(1, 5) { 2 } else { 0 } };
     let density = r.range(1, 8);
     let mut ctors: Vec<Ctor> = ctor::MBI_SLOT_CTORS.iter().copied().filter(|_| r.chance(density, 8)).collect();
     if ctors.is_empty() && r.chance(3, 4) {
         ctors.push(*r.pick(ctor::MBI_SLOT_CTORS));
     }
+    // rare: hundreds of (small) tags in one structure — counters, fixed-size
+    // tables and iteration limits only show beyond 2^7, 2^8, 2^10 entries
+    let very_long = r.chance(1, 150);
+    if very_long {
+        knobs.max_len = 24;
+        knobs.precondition_rate = 0;
+        ctors = vec![Ctor::Module, Ctor::Smbios, Ctor::Custom];
+        if r.chance(1, 2) {
+            ctors.push(*r.pick(ctor::MBI_SLOT_CTORS));
+        }
+    }
     let n_builders = if r.chance(1, 6) { 2 } else { 1 };
     let n_sets = if ctors.is_empty() {
         0
+    } else if very_long {
+        *r.pick(&[120usize, 127, 128, 129, 255, 256, 257, 300, 600, 1025])
     } else if r.chance(1, 12) {
         r.range(31, 90) as usize // many tags: the builder's internal Vec grows several times
     } else {
@@ -208,7 +232,7 @@ fn gen_c06(r: &mut Rng) -> Vec<Op> {
     let repeat_bias = r.below(4);
     let mut ops = Vec::new();
     for b in 0..n_builders {
-        ops.push(Op::new(OpKind::MbiNew, vec![b], vec![]));
+        ops.push(Op::new(OpKind::MbiNew, vec![b, r.below(2)], vec![]));
     }
     for _ in 0..n_sets {
         let b = r.below(n_builders);
@@ -379,9 +403,9 @@ fn is_variable(c: Ctor) -> bool {
 /// which every evaluation includes anyway).
 pub fn directed_cfgs() -> Vec<Config> {
     vec![
-        Config { placement: Placement::MinAlign, fill: Fill::Random, realloc_move: true, poison_free: true, fail_at: 0, alloc_seed: 7 },
-        Config { placement: Placement::ReuseLifo, fill: Fill::Stale, realloc_move: false, poison_free: false, fail_at: 0, alloc_seed: 11 },
-        Config { placement: Placement::PageEnd, fill: Fill::PatternAA, realloc_move: true, poison_free: true, fail_at: 0, alloc_seed: 13 },
+        Config { placement: Placement::MinAlign, fill: Fill::Random, realloc_move: true, poison_free: true, fail_at: 0, fail_persist: false, alloc_seed: 7 },
+        Config { placement: Placement::ReuseLifo, fill: Fill::Stale, realloc_move: false, poison_free: false, fail_at: 0, fail_persist: false, alloc_seed: 11 },
+        Config { placement: Placement::PageEnd, fill: Fill::PatternAA, realloc_move: true, poison_free: true, fail_at: 0, fail_persist: false, alloc_seed: 13 },
     ]
 }
 
